@@ -120,7 +120,24 @@ def raw_file(path, umap=None):
 
 
 def node_info(node):
-    """NodeInfo JSON (without kids) of a runtime node: encode the node alone with its own to_h5"""
+    """NodeInfo JSON (without kids) of a runtime node: encode the node alone with its own to_h5.  For Custom nodes the
+    expected encoding is stated independently of `Custom.to_h5`: what `Node.to_h5` writes, then one group per node-valued
+    attribute (the attribute encoded alone by its own class under the attribute name, re-tagged `custom_<group type>`)."""
+    from harness import vcustom
+    import emdfile
+    if vcustom.is_vcustom(node):
+        g = scratch_group()
+        try:
+            grp = emdfile.Node.to_h5(node, g)
+        except Exception as e:
+            return {"n": str(node.name), "c": type(node).__name__, "t": "custom", "b": [], "unencodable": type(e).__name__}
+        ro = raw_obj(grp)
+        body = list(ro["k"])
+        for k, v in vcustom.attr_nodes(node):
+            a = node_info(v)
+            body.append([k, {"g": {"emd_group_type": "custom_" + a["t"], "python_class": a["c"]}, "k": a["b"]}])
+        return {"n": str(node.name), "c": str(ro["g"].get("python_class", "?")), "t": str(ro["g"].get("emd_group_type", "?")),
+                "b": body}
     g = scratch_group()
     try:
         grp = node.to_h5(g)
